@@ -524,19 +524,13 @@ impl World {
             pending_ben = (whole(3000), ben_exp + 9);
             let st: fil_actor_paych::State = v.state(&pc).unwrap();
             assert!(st.settling_at > 0 && st.settling_at <= v.epoch(), "channel must be collectable");
-            // one more signature on the pending multisig transaction: `signer` has approved,
-            // `signer2` takes the role of the signer that still can
+            // one more signature on the pending multisig transaction: in B the `signer` class is a
+            // signer that HAS approved (so it is an approver, but not the proposer)
             Self::must(
                 &v.run_p(&a["signer"], &ms, &zero, fil_actor_multisig::Method::Approve as u64,
                     &TxnIDParams { id: TxnID(0), proposal_hash: vec![] }),
                 "B: approve",
             );
-            let s = a["signer"];
-            a.insert("signer".into(), a["signer2"]);
-            a.insert("signer2".into(), s);
-            let p = pk["signer"];
-            pk.insert("signer".into(), pk["signer2"]);
-            pk.insert("signer2".into(), p);
         }
 
         let mut tgt = BTreeMap::new();
@@ -938,7 +932,8 @@ impl World {
 
             // ---------------------------------------------------------------- multisig
             ("multisig", "Propose") => Call::new(blk(&ProposeParams { to: a["account"], value: atto(1), method: METHOD_SEND, params: RawBytes::default() }), true),
-            ("multisig", "Approve") | ("multisig", "Cancel") => Call::new(blk(&TxnIDParams { id: TxnID(if s { 0 } else { 55 }), proposal_hash: vec![] }), s),
+            ("multisig", "Approve") => Call::new(blk(&TxnIDParams { id: TxnID(if s { 0 } else { 55 }), proposal_hash: vec![] }), s && in_a),
+            ("multisig", "Cancel") => Call::new(blk(&TxnIDParams { id: TxnID(if s { 0 } else { 55 }), proposal_hash: vec![] }), s),
             ("multisig", "AddSigner") => Call::new(blk(&AddSignerParams { signer: a["spare"], increase: false }), true),
             ("multisig", "RemoveSigner") => Call::new(blk(&RemoveSignerParams { signer: a["signer2"], decrease: true }), true),
             ("multisig", "SwapSigner") => Call::new(blk(&SwapSignerParams { from: a["signer2"], to: a["spare"] }), true),
